@@ -693,6 +693,30 @@ static void json_deep_eval(uint64_t idx, void *ctx) {
     free(close);
 }
 
+/* second life of the library: aws_common_library_clean_up followed by aws_common_library_init, then every decoder family once
+ * more on a few inputs (well-formed, truncated, empty).  Module-level state that is set up at init has to be set up again
+ * (added after a seeded change whose JSON module kept its "initialised" flag across the clean-up and then ran without an
+ * allocator) */
+static uint64_t relife_total(void) { return 12; }
+static void relife_eval(uint64_t idx, void *ctx) {
+    (void)ctx;
+    BEE_ITEM(idx);
+    static const char *const inputs[6] = {"{\"a\":[1,2,{\"b\":null}]}", "[1,", "", "\"x\"", "<r a=\"1\"><c>t</c></r>", "<r><c>"};
+    aws_common_library_clean_up();
+    aws_common_library_init(A);
+    if (idx >= 6) { /* and a third life */
+        aws_common_library_clean_up();
+        aws_common_library_init(A);
+    }
+    const char *in = inputs[idx % 6];
+    size_t n = strlen(in);
+    V_COUNT("relife_cases", 1);
+    struct blk b = blk_new((const uint8_t *)in, n);
+    if (idx % 6 < 4) json_once(b.p, n, (const uint8_t *)in);
+    else xml_once(b.p, n, (const uint8_t *)in, XP_DESCEND, 0);
+    blk_free(&b);
+}
+
 /* =========================================================================================================
  *  URI, query string, percent-decoding
  * ========================================================================================================= */
@@ -1344,6 +1368,7 @@ int main(int argc, char **argv) {
     REG("cbor_deep", cbor_deep_total, cbor_deep_eval, 30);
     REG("xml_deep", xml_deep_total, xml_deep_eval, 30);
     REG("json_deep", json_deep_total, json_deep_eval, 60);
+    REG("relife", relife_total, relife_eval, 20);
     REG("uri_str", uri_str_total, uri_str_eval, 10);
     REG("uri_edit", uri_edit_total, uri_edit_eval, 10);
     REG("date_str", date_str_total, date_str_eval, 10);
